@@ -161,8 +161,24 @@ func errField(err error) string {
 }
 
 // lex <cps>  →  ok (<type>:<start>:<end>:<literal>)* | <tokens so far> err syn <code> <cursor>
+// lex <cps>: the text is lexed TWICE from the same rune slice (a loaded program is compiled again at every execution):
+// lexing must leave the text as it was, and the second pass must give what the first gave
 func opLex(f []string) string {
 	src := parseCps(f[0])
+	a := lexOnce(src)
+	orig := parseCps(f[0])
+	for i := range orig {
+		if i >= len(src) || src[i] != orig[i] {
+			return a + " SRC-CHANGED"
+		}
+	}
+	if b := lexOnce(src); b != a {
+		return a + " RELEX-DIFFERS"
+	}
+	return a
+}
+
+func lexOnce(src []rune) string {
 	l := syntax.NewLexer(src)
 	var sb strings.Builder
 	n := 0
